@@ -28,7 +28,7 @@ from typing import TYPE_CHECKING
 from igraph import Vertex
 
 from explorerscript.ssb_converting.decompiler.write_handlers.abstract import AbstractWriteHandler
-from explorerscript.ssb_converting.ssb_special_ops import SsbLabelJump
+from explorerscript.ssb_converting.ssb_special_ops import SsbLabelJump, OP_JUMP
 
 if TYPE_CHECKING:
     from explorerscript.ssb_converting.ssb_decompiler import ExplorerScriptSsbDecompiler
@@ -49,7 +49,9 @@ class JumpWriteHandler(AbstractWriteHandler):
         logger.debug("Handling a jump; (%s)...", self.start_vertex["op"])
         op: SsbLabelJump = self.start_vertex["op"]
         # The source map entry is added if a jump statement is written for this operation (by the label handler).
-        self.decompiler.jump_will_be_written_by_label(op.offset)
+        # (not for jumps that were inserted for an edge of another operation, which has it's own entry)
+        if op.maybe_root is not None and op.root.op_code.name == OP_JUMP:
+            self.decompiler.jump_will_be_written_by_label(op.offset)
         # Nothing to do, this is dealt with, when processing the label after this
         # either we print a jump there, or we just proceed.
         exits = self.start_vertex.out_edges()
